@@ -15,6 +15,17 @@ CHECKS = {
              'Comments are not required to survive. Known defects are listed in known_findings.json.',
         technique='deviation-bounded exhaustive input enumeration on the real reader/writer + reference-model comparison',
         ref='3/C01'),
+    'C02': dict(
+        text='Exhaustive program-family enumeration with a reference model: the packed attribute-kind family (every simple, defined, enumeration, select and aggregate '
+             'kind, OPTIONAL variants), the inheritance family (chains, diamond, two roots, derived and redeclared attributes, ABSTRACT, ONEOF/AND/ANDOR) and an '
+             'inverse/naming family (C++ and Part 21 keywords) are generated with exp2cxx, compiled, and EVERY descriptor of the registered dictionary (entities, '
+             'supertypes, subtypes, abstractness, attributes with kind/optionality/type, inverse attributes, types with underlying type, enumeration items, select members, '
+             'aggregate kind/bounds/UNIQUE/OPTIONAL) is compared with the dictionary computed from the abstract model; a fresh instance of every entity must expose the Part 21 '
+             'attribute order; a generated C++ test stores and reads back values through every INTEGER/REAL/NUMBER/STRING/BOOLEAN/LOGICAL/entity accessor; each schema is '
+             'also compiled with reversed declaration order and in upper case and must register the same dictionary.',
+        note='Trusted: smodel (abstract model) and g++. Subtypes/select members compared as sets; the OPTIONAL flag of an aggregate is read from the description text (no getter exists).',
+        technique='exhaustive program-family enumeration through the real generator+compiler + reference-model comparison of every dictionary entry',
+        ref='3/C02'),
     'C03': dict(
         text='Fault enumeration on the real reader: for every entity of the packed families K and I the conforming default population with exactly ONE '
              'violation of each listed class (parameter removed/added at every position, every other literal kind at every attribute and aggregate '
